@@ -48,6 +48,37 @@ Theorem C13_no_underflow : forall ops s h,
   snd (step s (OpUnlock h)) <> OutPanic.
 Proof. exact unlock_open_no_panic. Qed.
 
+(* "usable exactly from open until close", over whole histories: once an open handle has been
+   unlocked in a reachable state, no later history makes it usable again — get and unlock on it
+   panic in every state reachable afterwards and no later lock returns its id *)
+Theorem C13_closed_handle_stays_closed : forall ops sp h sp' rest sp'',
+  spec_exec spec_new ops = Some sp ->
+  fst (spec_step sp (OpUnlock h)) = Some sp' ->
+  spec_exec sp' rest = Some sp'' ->
+  snd (spec_step sp'' (OpGet h)) = OutPanic /\ snd (spec_step sp'' (OpUnlock h)) = OutPanic
+  /\ forall k ro d, snd (spec_step sp'' (OpLock k ro d)) <> OutLock (Some h).
+Proof. exact closed_handle_stays_closed. Qed.
+
+(* a handle id that was never handed out is not usable in any reachable state *)
+Theorem C13_unissued_handle_unusable : forall ops sp h,
+  spec_exec spec_new ops = Some sp -> s_next sp <= h ->
+  snd (spec_step sp (OpGet h)) = OutPanic.
+Proof. exact unissued_handle_unusable. Qed.
+
+(* non-vacuity of the premises of C13_closed_handle_stays_closed: handle 0 is unlocked after two
+   locks, then three more requests run; the same history on the implementation model panics on get *)
+Example C13_closed_nonvacuous :
+  let ops := [OpLock (1,0,0) true 7; OpLock (1,0,1) false 9] in
+  let rest := [OpLock (1,0,0) false 3; OpUnlock 1; OpLock (1,0,1) true 4] in
+  (exists sp sp' sp'', spec_exec spec_new ops = Some sp /\
+     fst (spec_step sp (OpUnlock 0)) = Some sp' /\ spec_exec sp' rest = Some sp'')
+  /\ run locks_new (ops ++ [OpUnlock 0] ++ rest ++ [OpGet 0]) =
+     [OutLock (Some 0); OutLock (Some 1); OutEntry (1,0,0) 7; OutLock (Some 2);
+      OutEntry (1,0,1) 9; OutLock (Some 3); OutPanic].
+Proof.
+  split; [do 3 eexists; repeat split; vm_compute; reflexivity|vm_compute; reflexivity].
+Qed.
+
 (* non-vacuity: a concrete history reaching a state with two readers on one substate and a writer
    on another, on which the premises above are met *)
 Example C13_nonvacuous :
@@ -67,3 +98,5 @@ Print Assumptions C13_handle_lifetime.
 Print Assumptions C13_handles_never_reused.
 Print Assumptions C13_node_locked_iff.
 Print Assumptions C13_no_underflow.
+Print Assumptions C13_closed_handle_stays_closed.
+Print Assumptions C13_unissued_handle_unusable.
